@@ -172,7 +172,8 @@ void h_stream_get(void)
 void h_stream_bits(void)
 {
     BUILD_BLOCK(); VIN(uint8_t, start); VIN(uint8_t, skip); VIN(uint8_t, nb);
-    VASSUME(nb >= 1 && nb <= 24 && skip <= 7);          /* bit phase inside an octet (whole octets are covered by `start`) */
+    VASSUME(nb >= 1 && nb <= 17 && skip <= 7);          /* up to 17 bits: the reader must then refill across at most three octets */
+             /* bit phase inside an octet (whole octets are covered by `start`) */
     struct ubuf_block_stream s;
     int ret = ubuf_block_stream_init(&s, ubuf, start);
     if (ret == UBASE_ERR_NONE) {
@@ -181,7 +182,7 @@ void h_stream_bits(void)
         ubuf_block_stream_fill_bits(&s, nb);
         uint32_t got = ubuf_block_stream_show_bits(&s, nb);
         uint32_t expect = 0; bool past = false;
-        for (int k = 0; k < 24; k++) {
+        for (int k = 0; k < 17; k++) {
             if (k >= nb) break;
             size_t bit = (size_t)skip + k, byte = (size_t)start + bit / 8; uint8_t v = 0;
             if (byte < g_o.total) { if (!spec_byte(ubuf, byte, &v)) v = 0; } else past = true;
